@@ -52,3 +52,24 @@ Proof.
     + rewrite (read_client_conf_file_error w e' Ef) in H. inversion H. reflexivity.
   - apply read_client_conf_file_error.
 Qed.
+
+(* without '$' in the home directory, $VAR expansion leaves the platform paths alone *)
+Theorem candidates_plain w :
+  contains ch_dollar (user_home w) = false ->
+  expanded_candidates w = client_conf_paths (the_platform w) /\
+  expanded_defaults w Pib = default_pib_paths (the_platform w) /\
+  expanded_defaults w Tpm = default_tpm_paths (the_platform w).
+Proof.
+  intros H. unfold expanded_candidates, expanded_defaults, the_platform, linux_platform, item_paths.
+  cbn [client_conf_paths default_pib_paths default_tpm_paths map].
+  repeat split; repeat (rewrite expandvars_plain; [|try reflexivity; rewrite contains_app, H; reflexivity]); reflexivity.
+Qed.
+
+(* the platform default transport always denotes a Unix face *)
+Theorem platform_transport_face nf w :
+  default_face nf (default_transport (the_platform w)) = Ok (FUnix (slit "/run/nfd/nfd.sock")) \/
+  default_face nf (default_transport (the_platform w)) = Ok (FUnix (slit "/run/nfd.sock")).
+Proof.
+  unfold the_platform, linux_platform. cbn [default_transport]. unfold linux_default_transport.
+  destruct (negb (w_exists w (slit "/run/nfd/nfd.sock")) && w_exists w (slit "/run/nfd.sock")); [right|left]; reflexivity.
+Qed.
